@@ -126,6 +126,9 @@ def run_shard(prop_id, seed, shard, tier, examples, timeout):
     from hypothesis.errors import Flaky, FlakyFailure  # noqa
     from . import core
     faulthandler.dump_traceback_later(timeout, exit=True)
+    # shrinking is only reached on a failing tree; bound it so that a failing check answers in minutes
+    import hypothesis.internal.conjecture.engine as _eng
+    _eng.MAX_SHRINKING_SECONDS = 40 if tier == "quick" else 150
     t0 = time.time()
     mod = load_prop(prop_id)
     known = load_known()
@@ -144,7 +147,8 @@ def run_shard(prop_id, seed, shard, tier, examples, timeout):
                 ctx.known[k["id"]] += 1
             else:
                 new.append(v)
-        ctx.trace.append([core.spec_digest(spec), ctx.last_trace, sorted(v["clause"] for v in new)])
+        if state["fail"] is None:       # the digest covers the generation phase; shrinking may be cut by wall time
+            ctx.trace.append([core.spec_digest(spec), ctx.last_trace, sorted(v["clause"] for v in new)])
         if len(ctx.samples) < 2 and not new:
             ctx.samples.append(spec)
         if new:
@@ -340,6 +344,8 @@ def run_check(prop_id, tier, seed=None, workers=None, shards=None, examples=None
         deadline = t0 + tcfg.get("budget_s", 10 ** 9)
         for fut in cf.as_completed(futs):
             kind, s = futs[fut]
+            if fut.cancelled():
+                continue
             try:
                 r = fut.result()
             except Exception as e:
@@ -349,6 +355,9 @@ def run_check(prop_id, tier, seed=None, workers=None, shards=None, examples=None
                 results[s] = r
             else:
                 det_pairs[s] = r
+            if r.get("violation") and not os.environ.get("VERIF_NO_FAILFAST"):
+                for f2 in futs:         # the verdict is settled: do not start further shards
+                    f2.cancel()
             if time.time() > deadline:
                 for f2 in futs:
                     f2.cancel()
